@@ -238,6 +238,26 @@ def sp_rxg_none(eng, st, key, i, line):
     return V.vbool(rx.group_none[V.concrete_int(eng.as_sym(i).d)](eng.as_sym(line).d))
 
 
+def _field_rx(eng, name):
+    from pyvc.objects import RxSym
+    from pyvc.source import live_module
+    n = name.d.as_string() if not isinstance(name.shape, ConcS) else name.d
+    spec = live_module("chartparse.metadata")._field_parsing_specs[n]
+    rx = RxSym(spec.regex_prog.pattern, spec.regex_prog.groups)
+    eng.apply_rx_facts(rx)
+    return rx
+
+
+def sp_fieldm(eng, st, name, line):
+    """line matches the shipped recogniser of [Song] field `name`"""
+    return V.vbool(_field_rx(eng, name).match(eng.as_sym(line).d))
+
+
+def sp_fieldg(eng, st, name, line):
+    """the value captured from line by the recogniser of field `name`"""
+    return V.vstr(_field_rx(eng, name).group[1](eng.as_sym(line).d))
+
+
 def sp_decok(eng, st, s):
     from pyvc.objects import DECOK
     return V.vbool(DECOK(eng.as_sym(s).d))
@@ -364,6 +384,8 @@ def register(reg):
     f["rxg"] = sp_rxg
     f["rxg_none"] = sp_rxg_none
     f["decok"] = sp_decok
+    f["fieldm"] = sp_fieldm
+    f["fieldg"] = sp_fieldg
     f["round3"] = sp_round3
     f["sorted_ticks"] = sp_sorted_ticks
     f["gov"] = sp_gov
